@@ -91,7 +91,9 @@ func (r *validationResponseHandler) HandleValidationResponse(
 		ccRespOnce bool
 	)
 	if (err != nil || isStaleErrorAllowed(resp.StatusCode)) && req.Method == http.MethodGet {
-		ccResp = ParseCCResponseDirectives(resp.Header)
+		if resp != nil { // a failed round trip returns no response
+			ccResp = ParseCCResponseDirectives(resp.Header)
+		}
 		ccRespOnce = true
 		if r.siep.CanStaleOnError(ctx.Freshness, ccResp) {
 			// RFC 9111 §4.2.4 Serving Stale Responses
